@@ -79,3 +79,12 @@ claim('C07', 'Lean 4 theorems (isolation, termination, error accounting on the c
       "healthy sources' lines complete and ordered; traces are replayed through the model.",
       TB + "Not provable here: absence of panics/aborts inside third-party decoders, libsystemd and the unsafe casts; wall-clock promptness.",
       "DESIGN.md §6 C07")
+
+claim('C09', 'Lean 4 theorems on the JournalReader iteration/serialisation model with the stop test, dating source and field cap regenerated from the source; window correspondence and journalctl-based oracle on the binary',
+      "Machine-checked: without a window every enumerated entry is printed exactly once in journal order; any selection is an order-preserving sublist; for non-decreasing "
+      "receive times it is exactly A <= t <= B (both inclusive; the exclusive end found by this work was repaired by commit a1ebdbb3, the stop test is regenerated every run so a "
+      "regression breaks C09_stop_iff); the instant is __REALTIME_TIMESTAMP; the export text contains every enumerated field unchanged and is decodable iff no value "
+      "contains a newline (counter-model proved; known finding F11). Tie: the binary is run on shipped journals, plain and re-packed into containers, against journalctl "
+      "--file -o json: entry count, cursor order, per-entry field lines, cat text, windows exactly on and next to entry times; printed selections are compared with the model.",
+      TB + "libsystemd (seek/next/enumerate) and journalctl are trusted; short/verbose renderings are not modelled.",
+      "DESIGN.md §6 C09")
